@@ -113,11 +113,12 @@ def run(env, rep):
                           "serialize reaches add_chunk with a payload length in %s: the 24-bit message-length field holds at most %d (the guard must refuse longer payloads with an error)" % (d, MAX_MESSAGE), t["span"])
         rep.floor("C19.R3", "calls of add_chunk in serialize", n3, 1)
     # ------------------------------------------------------------------ R4
-    entries = api_entries(prog, rep, "C19.R4")
-    rep.floor("C19.R4.entries", "public functions of the API types", len(entries), 25)
-    bodies, ns = panic_sites(env, rep, "C19.R4", entries, "API")
-    rep.floor("C19.R4", "panic-capable sites in API-reachable functions", ns, 60)
-    nl = loops.loop_progress(env, rep, "C19.R5", bodies)
+    if wants(rep, "C19.R4") or wants(rep, "C19.R5"):
+        entries = api_entries(prog, rep, "C19.R4")
+        rep.floor("C19.R4.entries", "public functions of the API types", len(entries), 25)
+        bodies, ns = panic_sites(env, rep, "C19.R4", entries, "API")
+        rep.floor("C19.R4", "panic-capable sites in API-reachable functions", ns, 60)
+        nl = loops.loop_progress(env, rep, "C19.R5", bodies)
     # ------------------------------------------------------------------ R6: an accepted chunk size is announced before it is used
     from ..framework import PrefixReport
     from . import C07
